@@ -298,6 +298,23 @@ def install_calls():
 
     C.class_call = class_call
 
+    base_do_call = C.do_call
+
+    def do_call(ex, st, e):
+        # with_ghost(f, name=value, ...)(args...): a call of f whose contract has ghost parameters
+        f = e.func
+        if isinstance(f, ast.Call) and isinstance(f.func, ast.Name) and f.func.id == "with_ghost" and "with_ghost" not in st.env:
+            ex.pending_ghost = {k.arg: ex.ev(st, k.value) for k in f.keywords}
+            e2 = ast.copy_location(ast.Call(func=f.args[0], args=e.args, keywords=e.keywords), e)
+            try:
+                return base_do_call(ex, st, e2)
+            finally:
+                ex.pending_ghost = None
+        return base_do_call(ex, st, e)
+
+    C.do_call = do_call
+    S.GHOST_NAMES.add("with_ghost")
+
     base_ghost = C.ghost_call
 
     def ghost_call(ex, st, name, e):
